@@ -67,10 +67,15 @@ Definition jointsAsParent (J : list joint) (b : nat) : list nat :=
 Definition jointsAsChild (J : list joint) (b : nat) : list nat :=
   filter (fun jn => Nat.eqb (jchi (nth jn J jd)) b) (seq 0 (length J)).
 
-(** bodiesAreConnected(b1,b2) *)
+(** bodiesAreConnected(b1,b2) (no longer used by generateGraph) *)
 Definition connected (J : list joint) (b1 b2 : nat) : bool :=
   existsb (fun jn => Nat.eqb (jchi (nth jn J jd)) b2) (jointsAsParent J b1) ||
   existsb (fun jn => Nat.eqb (jpar (nth jn J jd)) b2) (jointsAsChild J b1).
+
+(** generateGraph() step 1: is there a joint between b and Ground that may become a mobilizer (not mustBeLoopJoint)? *)
+Definition treeJointToGround (J : list joint) (b : nat) : bool :=
+  existsb (fun jn => Nat.eqb (jchi (nth jn J jd)) 0 && negb (jloop (nth jn J jd))) (jointsAsParent J b) ||
+  existsb (fun jn => Nat.eqb (jpar (nth jn J jd)) 0 && negb (jloop (nth jn J jd))) (jointsAsChild J b).
 
 (** connectBodyToGround(b): free joint Ground -> b *)
 Definition baseJoint (b : nat) : joint := {| jty := 1; jpar := 0; jchi := b; jloop := false; jadded := true |}.
@@ -94,7 +99,7 @@ Fixpoint precheck (bns : list nat) (J : list joint) : result (list joint) :=
     match bad with
     | Some e => Error e
     | None =>
-      if Nat.eqb nJ 0 || (baseOf bn && negb (connected J bn 0))
+      if Nat.eqb nJ 0 || (baseOf bn && negb (treeJointToGround J bn))
       then precheck r (J ++ [baseJoint bn]) else precheck r J
     end
   end.
